@@ -39,6 +39,8 @@ def run(ctx):
     tasks += [(chk.random_shard, ('vf.props.c06:SPEC', ctx.shard_seed(100 + i), ctx.n(6000, 150000))) for i in range(16)]
     tasks += [(chk.history_shard, ('vf.props.c06:SPEC', 'vf.props.c07:SPEC32', ctx.shard_seed(300 + i), ctx.n(3000, 60000))) for i in range(4)]
     tasks += [(chk.corner_shard, ('vf.props.c06:SPEC', i, 16, ctx.shard_seed(500 + i), ctx.n(4, 40))) for i in range(16)]
+    for k, cn in enumerate(('v5', 'v7', 'v4')):
+        tasks += [(chk.corner_shard, ('vf.props.c06:SPEC', i, 8, ctx.shard_seed(700 + 20 * k + i), ctx.n(2, 20), cn)) for i in range(8)]
     ctx.pmap(_dispatch, tasks)
     ctx.acc.exhaustive = True
     ctx.acc.extra['exhaustive_part'] = 'class selection over all 2^32 words via the joint region partition'
@@ -52,4 +54,4 @@ def replay(case, bucket=None):
     if case.get('kind') == 'history':
         from vf.props import c07
         return chk.replay_history(SPEC, c07.SPEC32, case['word'])
-    return chk.replay_word(SPEC, case['word'])
+    return chk.replay_word(SPEC, case['word'], case.get('cfg'))
